@@ -284,7 +284,11 @@ impl PatchManager {
             if last_boot_patch.number != bad_patch_number
                 && self.validate_patch_is_bootable(&last_boot_patch).is_ok()
             {
-                self.patches_state.next_boot_patch = Some(last_boot_patch);
+                // Only fall back to the last booted patch if nothing else is selected. If the
+                // next boot patch is not the patch we are falling back from, it stays selected.
+                if self.patches_state.next_boot_patch.is_none() {
+                    self.patches_state.next_boot_patch = Some(last_boot_patch);
+                }
             } else {
                 self.patches_state.last_booted_patch = None;
                 // No need to log failure – delete_patch_artifacts logs for us.
